@@ -86,6 +86,9 @@ func ignoredReq(name string) bool {
 		n == "x-http2-fingerprint" || n == "host" || n == "content-length" || n == "accept-encoding" || n == "user-agent"
 }
 
+// table0: the h2 client advertises SETTINGS_HEADER_TABLE_SIZE = 0 and decodes with a 0-byte dynamic table
+var table0 bool
+
 func newEnv(rep *ev.Report, preserve bool, script func(*bubble.RecReq) *bubble.RespScript) *env {
 	fingerproxy.VerifSetFlags(fingerproxy.VerifFlags{PreserveHost: preserve, Probe: true, Flush: "100ms", Idle: "180s", Read: "60s", Write: "60s", TLSHandshake: "10s"})
 	to, _ := url.Parse("http://backend.internal:8080")
@@ -108,7 +111,12 @@ func newEnv(rep *ev.Report, preserve bool, script func(*bubble.RecReq) *bubble.R
 			return nil
 		}
 	}
-	e.h2 = bubble.NewH2Session(c2)
+	if table0 {
+		c2.Dec = h2wire.NewDecoderSize(0)
+		e.h2 = bubble.NewH2SessionWith(c2, h2wire.Setting{ID: 1, Val: 0})
+	} else {
+		e.h2 = bubble.NewH2Session(c2)
+	}
 	synctest.Wait()
 	return e
 }
@@ -557,15 +565,21 @@ func TestCheck(t *testing.T) {
 	if thorough {
 		rsizes = append(rsizes, 1<<20+1)
 	}
-	for _, proto := range []string{"h1", "h2"} {
+	for _, proto := range []string{"h1", "h2", "h2-table0"} {
 		for _, pieces := range []string{"one", "three-flush", "bytes64"} {
 			for _, hs := range respHss {
 				proto, pieces, hs := proto, pieces, hs
 				if !thorough && hs.name != "repeated" && pieces != "one" {
 					continue
 				}
+				if proto == "h2-table0" && pieces != "one" {
+					continue
+				}
 				jobs = append(jobs, func() {
 					var cur *bubble.RespScript
+					table0 = proto == "h2-table0"
+					defer func() { table0 = false }()
+					proto := strings.TrimSuffix(proto, "-table0")
 					res := bubble.Run(t, func() {
 						e := newEnv(rep, false, func(*bubble.RecReq) *bubble.RespScript { return cur })
 						if e == nil {
@@ -589,6 +603,9 @@ func TestCheck(t *testing.T) {
 											rs.framing = "d16384"
 										}
 										desc := fmt.Sprintf("S %s %s status=%d headers=%s body=%d pieces=%s trailers=%v", proto, method, status, hs.name, n, pieces, sp.trailer)
+										if table0 {
+											desc += " client-header-table-size=0"
+										}
 										rec, g := e.exchange(rep, proto, rs, "localhost", nil)
 										if rec == nil {
 											return
